@@ -285,6 +285,7 @@ func (p *parser) parseExpression(rbp int) Node {
 // returns an error token.
 func (p *parser) advance(allowRegex bool) {
 	p.token = p.lexer.next(allowRegex)
+	verifToken(p.token, &p.lexer, allowRegex)
 	if p.token.Type == typeError {
 		panic(p.lexer.err)
 	}
